@@ -51,9 +51,11 @@ def opsC19 : List (String × Op) := [
     let cover := ps.flatMap pairsOf == pairsOf (List.range l)
     let size := maxLen == 0 || ps.all fun p => 2 * p.length ≤ 3 * maxLen + 1
     let lastNonEmpty := ps.all fun p => p.length ≥ 1
+    -- `split_concat`: the first piece followed by the later pieces without their first vertex
+    let join := (match ps with | [] => [] | p :: rest => p ++ rest.flatMap List.tail) == List.range l
     pure [("model.lens", lensOf ps), ("model.flat", flatOf ps), ("n", #[(n : Int)]), ("k", #[(k : Int)]),
           ("spec.chain", ofBool chain), ("spec.cover", ofBool cover), ("spec.size", ofBool size),
-          ("spec.nonempty", ofBool lastNonEmpty)]),
+          ("spec.nonempty", ofBool lastNonEmpty), ("spec.join", ofBool join)]),
   ("features", fun a => do
     let paths := unflatten (← a.natList "lens") (← a.natList "flat")
     let nmaps ← a.nat "nmaps"
@@ -94,8 +96,23 @@ def opsC19 : List (String × Op) := [
     let idxsOut ← a.natList "idxs_out"
     let mask := optMask a
     let maxLen ← a.nat "max_len"
+    -- hypotheses of `segment_indices_total` / `segment_indices_total_up` (third round), evaluated when the
+    -- network `ds` and the order `seq` the implementation used are passed along
+    let hyp : List (String × Array Int) :=
+      match a.optInts "ds", a.optInts "seq" with
+      | some dsI, some seqI =>
+        let ds : Array Nat := dsI.map Int.toNat
+        let seq : List Nat := (seqI.map Int.toNat).toList
+        let covers := (List.range ds.size).all fun i => !isValid ds i || seq.contains i
+        let link := nxt == ds ||
+          (nxt.size == ds.size && (List.range ds.size).all fun c =>
+            nxt[c]! == ds.size || (decide (nxt[c]! < ds.size) && ds[nxt[c]!]! == c && nxt[c]! != c))
+        let outsOk := idxsOut.all fun c => decide (c ≤ ds.size)
+        [("hyp.topo", ofBool (isTopo ds seq)), ("hyp.covers", ofBool covers), ("hyp.link", ofBool link),
+         ("hyp.outs", ofBool outsOk)]
+      | _, _ => []
     match segmentIndices idxsOut nxt mask maxLen with
     | none => throw "fuel"
-    | some m => pure [("model.lens", lensOf m), ("model.flat", flatOf m)])
+    | some m => pure ([("model.lens", lensOf m), ("model.flat", flatOf m)] ++ hyp))
 ]
 end Pf.Ops
